@@ -119,6 +119,33 @@ def ev_bad_construct_mode(p, keep):
         return 'ValueError'
 
 
+def ev_marshal_refused(p, keep):
+    out = []
+    for build in (lambda: p.commands.Connection.Tune(10, 2**32, 5),
+                  lambda: p.commands.Queue.Bind(
+                      queue='q', exchange='e', arguments={'k': object()}),
+                  lambda: p.commands.Basic.Deliver('tag', 2**70)):
+        try:
+            out.append(p.frame.marshal(build(), 1).hex())
+        except Exception as exc:  # noqa
+            out.append(type(exc).__name__)
+    return out
+
+
+def ev_marshal_invalid(p, keep):
+    obj = p.commands.Exchange.Declare(exchange='ok')
+    obj.exchange = 'bad*name'
+    out = []
+    for _ in range(3):
+        try:
+            out.append(p.frame.marshal(obj, 1).hex())
+        except ValueError:
+            out.append('ValueError')
+    obj.exchange = 'fine'
+    out.append(p.frame.marshal(obj, 1).hex())
+    return out
+
+
 # --- composite events: call, then mutate what was returned
 def ev_mutate_default_arguments(p, keep):
     a = p.commands.Queue.Declare()
@@ -251,6 +278,9 @@ EVENTS = [
     ('toggle (True)', ev_toggle(True)),
     ('toggle (False)', ev_toggle(False)),
     ('encode flag-sensitive table', ev_flag_encode),
+    # encodes that are refused part-way through
+    ('marshal refused mid-way', ev_marshal_refused),
+    ('marshal invalid after setattr', ev_marshal_invalid),
     # equal-but-distinct arguments (a memoised encoder conflates them)
     ('encode Decimal 1.0', lambda p, keep: p.encode.field_table(
         {'d': [A.D('1.0'), A.D('0')]}).hex()),
